@@ -241,6 +241,25 @@ func ProtectOuter(s Suite, ske, ska []byte, m Msg, l Lib, iv, pad []byte, outer 
 	return append(out, icv...), nil
 }
 
+// ProtectRaw authenticates an arbitrary plaintext (a multiple of 16 octets, e.g. a chain that does not parse or an
+// impossible pad-length octet): the checksum is genuine, what it covers is malformed. ctLen < 0 encrypts the whole
+// plaintext; otherwise the ciphertext is cut to ctLen octets (not a multiple of the block size) before the checksum
+// is computed.
+func ProtectRaw(s Suite, ske, ska []byte, h Hdr, first uint8, plaintext, iv []byte, ctLen int) []byte {
+	ct := CBCEncrypt(ske, iv, plaintext)
+	if ctLen >= 0 && ctLen < len(ct) {
+		ct = ct[:ctLen]
+	}
+	skLen := 4 + 16 + len(ct) + s.Integ.OutLen
+	out := EncodeHdr(h, PSK, 28+skLen)
+	out = append(out, first, 0)
+	out = append(out, be16(skLen)...)
+	out = append(out, iv...)
+	out = append(out, ct...)
+	icv := HMAC(s.Integ.Digest, ska, out)[:s.Integ.OutLen]
+	return append(out, icv...)
+}
+
 // SKParts is what an independent receiver extracts from a protected datagram.
 type SKParts struct {
 	H        Hdr
